@@ -119,7 +119,9 @@ def micro_jobs(tier):
 
 
 def jobs(tier):
-    return micro_jobs(tier)
+    from props import codec
+    # C++ reader primitives (DESIGN 5.C02 T2, first layer): every Read* stays inside its window and reports a sticky error
+    return micro_jobs(tier) + codec.codec_jobs(tier, want=('reader',))
 
 
 META = dict(
@@ -130,7 +132,8 @@ META = dict(
                  'comparison/subtraction of same-object pointers outside the object behaves as offset arithmetic (flat memory) on the lines listed in props/c02.py UM_PRAGMAS',
                  'libc strlen/strcmp/strncmp behave as their contract stubs say (read at most n / up to the first NUL)',
                  'single thread'],
-    assumed_contracts=['strlen', 'strcmp', 'strncmp'],
+    assumed_contracts=['strlen', 'strcmp', 'strncmp', 'GetNumItemsInField (contract written, enforcement exceeds the sandbox; assumed where callers replace it)'],
+    not_lowered=['MicroMessage: GetNumItemsInField, UMIteratorAdvance, UMGetString, UMFindData, UMFindMessage are NOT enforced (solver limits)', 'MiniMessage.c, both C gateways, Message::Unflatten and the C++ gateways are not covered yet'],
     explanation='Every read-side function of MicroMessage.c is enforced against a contract whose precondition is "any buffer of any size with arbitrary contents"; '
                 'CBMC generates a dereference obligation for every memory access, dfcc generates frame/postcondition/loop-invariant/variant obligations.',
 )
